@@ -9,6 +9,7 @@ import Grevm.Model.WaitSlot
 import Grevm.Model.RunOnce
 import Grevm.Model.Guard
 import Grevm.Model.Facade
+import Grevm.Model.Commit
 import Grevm.Driver.Kernel
 
 namespace Grevm.Driver.Small
@@ -186,5 +187,20 @@ def replayFacade (lines : List String) : String := Id.run do
     | [] => pure ()
     idx := idx + 1
   return s!"ok {idx}"
+
+/-- `gate` session: one line `<disable 0/1> <txNonce> <stateNonce>` per case; answers
+    `<committed|fallback> <reason or ->` from `Commit.nonceGate` / `Commit.nonceInvalid`. -/
+def replayGate (lines : List String) : String := Id.run do
+  let mut out : Array String := #[]
+  for l in lines do
+    match (words l).filterMap String.toNat? with
+    | [d, t, s] =>
+        let g := match Commit.nonceGate (d != 0) t s with
+          | .committed => "committed" | .fallback => "fallback"
+        let r := match Commit.nonceInvalid (d != 0) t s with
+          | some x => toString x | none => "-"
+        out := out.push s!"{g} {r}"
+    | _ => out := out.push "bad-op"
+  return ";".intercalate out.toList
 
 end Grevm.Driver.Small
